@@ -21,15 +21,15 @@ def gen(w, catalog):
     w("// ================= gen_app_extra_lt.py =================")
     for x in ("P", "K"):
         t0 = f"T0{x}"
-        w(f"#[derive(Debug)] pub struct V1{x}<'a> {{ pub src: &'a {t0}, pub id: u64 }}")
-        w(f"impl<'a> V1{x}<'a> {{ pub fn tag(&self) -> String {{ rt::tag(\"V1{x}\", self.id, self.id, \"C_V1{x}\", false) }} }}")
+        w(f"#[derive(Debug)] pub struct V1{x}<'a> {{ pub src: &'a {t0}, pub id: u64, pub by: &'static str }}")
+        w(f"impl<'a> V1{x}<'a> {{ pub fn tag(&self) -> String {{ rt::tag(\"V1{x}\", self.id, self.id, self.by, false) }} }}")
         w(f"#[derive(Debug)] pub struct V2{x}<'a> {{ pub src: &'a {t0}, pub id: u64, pub by: &'static str }}")
         w(f"impl<'a> V2{x}<'a> {{ pub fn tag(&self) -> String {{ rt::tag(\"V2{x}\", self.id, self.id, self.by, false) }} }}")
         w(f"#[derive(Debug)] pub struct Arch{x} {{ pub id: u64 }}")
         w(f"impl Arch{x} {{ pub fn tag(&self) -> String {{ rt::tag(\"Arch{x}\", self.id, self.id, \"C_ARCH{x}\", false) }} }}")
         # constructors
         w(f"#[pavex::request_scoped(id = \"C_V1{x}\")]")
-        w(f"pub fn c_v1{x.lower()}<'a>(a0: &'a {t0}) -> V1{x}<'a> {{ let id = rt::new_value(\"V1{x}\", \"C_V1{x}\", &[a0.tag()]); V1{x} {{ src: a0, id }} }}")
+        w(f"pub fn c_v1{x.lower()}<'a>(a0: &'a {t0}) -> V1{x}<'a> {{ let id = rt::new_value(\"V1{x}\", \"C_V1{x}\", &[a0.tag()]); V1{x} {{ src: a0, id, by: \"C_V1{x}\" }} }}")
         add(f"C_V1{x}", "ctor", "constructor", out=f"V1{x}", inputs=[{"type": t0, "mode": "r"}])
         w(f"#[pavex::request_scoped(id = \"C_V2R{x}\")]")
         w(f"pub fn c_v2r{x.lower()}<'a>(a0: &'a V1{x}<'a>) -> V2{x}<'a> {{ let id = rt::new_value(\"V2{x}\", \"C_V2R{x}\", &[a0.tag()]); V2{x} {{ src: a0.src, id, by: \"C_V2R{x}\" }} }}")
@@ -37,6 +37,17 @@ def gen(w, catalog):
         w(f"#[pavex::request_scoped(id = \"C_V2V{x}\")]")
         w(f"pub fn c_v2v{x.lower()}<'a>(a0: V1{x}<'a>) -> V2{x}<'a> {{ let id = rt::new_value(\"V2{x}\", \"C_V2V{x}\", &[a0.tag()]); V2{x} {{ src: a0.src, id, by: \"C_V2V{x}\" }} }}")
         add(f"C_V2V{x}", "ctor", "constructor", out=f"V2{x}", inputs=[{"type": f"V1{x}", "mode": "v"}])
+        # the same three constructors written with ELIDED lifetimes (`&T -> V<'_>`, `V1<'_> -> V2<'_>`): the compiler has to un-elide
+        # the output lifetime from the inputs, also when the only input that carries one is not a reference
+        w(f"#[pavex::request_scoped(id = \"C_V1E{x}\")]")
+        w(f"pub fn c_v1e{x.lower()}(a0: &{t0}) -> V1{x}<'_> {{ let id = rt::new_value(\"V1{x}\", \"C_V1E{x}\", &[a0.tag()]); V1{x} {{ src: a0, id, by: \"C_V1E{x}\" }} }}")
+        add(f"C_V1E{x}", "ctor", "constructor", out=f"V1{x}", inputs=[{"type": t0, "mode": "r"}])
+        w(f"#[pavex::request_scoped(id = \"C_V2RE{x}\")]")
+        w(f"pub fn c_v2re{x.lower()}<'a>(a0: &'a V1{x}<'_>) -> V2{x}<'a> {{ let id = rt::new_value(\"V2{x}\", \"C_V2RE{x}\", &[a0.tag()]); V2{x} {{ src: a0.src, id, by: \"C_V2RE{x}\" }} }}")
+        add(f"C_V2RE{x}", "ctor", "constructor", out=f"V2{x}", inputs=[{"type": f"V1{x}", "mode": "r"}])
+        w(f"#[pavex::request_scoped(id = \"C_V2VE{x}\")]")
+        w(f"pub fn c_v2ve{x.lower()}(a0: V1{x}<'_>) -> V2{x}<'_> {{ let id = rt::new_value(\"V2{x}\", \"C_V2VE{x}\", &[a0.tag()]); V2{x} {{ src: a0.src, id, by: \"C_V2VE{x}\" }} }}")
+        add(f"C_V2VE{x}", "ctor", "constructor", out=f"V2{x}", inputs=[{"type": f"V1{x}", "mode": "v"}])
         w(f"#[pavex::request_scoped(id = \"C_ARCH{x}\")]")
         w(f"pub fn c_arch{x.lower()}(a0: {t0}) -> Arch{x} {{ let id = rt::new_value(\"Arch{x}\", \"C_ARCH{x}\", &[a0.tag()]); Arch{x} {{ id }} }}")
         add(f"C_ARCH{x}", "ctor", "constructor", out=f"Arch{x}", inputs=[{"type": t0, "mode": "v"}])
